@@ -242,3 +242,16 @@ reg("C19", harness="c19_headers", level="model_checking", deadline=(300, 1500), 
     runs=[dict(flavour="sim", part="writer"), dict(flavour="sim", part="reader")],
     rule="writer case = (field combination, avail_out); reader state = image of inflate_state head + isal_gzip_header + caller buffers + cursor, "
          "transition = one real isal_read_gzip_header call; distinct_nontrivial = distinct headers written + reader graphs completed.")
+
+
+reg("C18", harness="c18_huff", level="exploration", deadline=(300, 1800), extra_src=["ref/ref_inflate.c"],
+    technique="bounded-exhaustive enumeration of histograms (all weight assignments over symbol subsets, depth-breaker families, collector outputs) with independent re-parse of the stored header and entry-by-entry decode of the packed tables; set_hufftables tried at every state of explored level-0 graphs",
+    level_text="For 12 symbol subsets mixing literal/EOB/length/distance positions ALL 8^5 (8^6) weight assignments from {0,1,2,2^10,2^20,2^30,2^43,"
+               "2^44-1}, Fibonacci and power-of-two prefixes (17..40 lit/len x 16..30 distance symbols), constants, single symbols and histograms "
+               "from every collector variant on SHAPES: both builders must succeed; the stored dynamic header is parsed by the independent decoder "
+               "to complete codes <= 15 bits; every one of the 257+256+30(+dist table) packed entries, emitted as the encoder emits it, decodes to "
+               "its symbol; worst-case payloads and the source data round-trip at level 0 (all flush modes, 3 kernels). Installing a table is "
+               "attempted at every state of level-0 deflate graphs: accepted iff no block is open, refusals change nothing.",
+    level_note="histograms outside the weight alphabet/subsets are not enumerated; entry emission re-states igzip/huffman.h getters; trusted: ref_inflate header parser.",
+    runs=[dict(flavour="sim", part="weights"), dict(flavour="sim", part="shapes"), dict(flavour="sim", part="install")],
+    rule="case = (histogram, builder); distinct_nontrivial = distinct histograms; evaluations = builder calls + table decodes + round trips.")
